@@ -405,7 +405,13 @@ func runMsgCase(c *MsgCase, ctx *chainCtx) *msgOutcome {
 	o.base = heapNow()
 	o.peak = o.base
 	sample := func() {
-		if h := heapNow(); h > o.peak {
+		h := heapNow()
+		if h > o.base && h-o.base > uint64(memConst)+uint64(memPerByte)*uint64(o.sent) {
+			// HeapAlloc counts garbage that is not collected yet (the harness's own, too): only what survives a collection is held
+			runtime.GC()
+			h = heapNow()
+		}
+		if h > o.peak {
 			o.peak = h
 		}
 	}
